@@ -1014,7 +1014,10 @@ class Frame(object):
         """
         Convert frequency to closest index in frame.
         """
-        return np.round((unit_utils.get_value(frequency, u.Hz) - self.fmin) / self.df).astype(int)
+        # As an array: a list or tuple of frequencies minus a Python float (the fmin of an 
+        # ascending frame) is not defined, minus a numpy float (that of a descending one) is
+        frequency = np.asarray(unit_utils.get_value(frequency, u.Hz), dtype=float)
+        return np.round((frequency - self.fmin) / self.df).astype(int)
 
     def get_frequency(self, index):
         """
